@@ -19,6 +19,10 @@ import textwrap
 import z3
 
 
+import os as _os
+DEBUG = _os.environ.get("VF_ASTSYM_DEBUG") == "1"
+
+
 class Unsupported(Exception):
     pass
 
@@ -305,12 +309,39 @@ class Engine:
         for kw in tree.args.kwonlyargs:
             if kw.arg in kwargs:
                 frame.locals[kw.arg] = kwargs[kw.arg]
+        if tree.args.kwarg is not None:
+            frame.locals[tree.args.kwarg.arg] = {k: v for k, v in kwargs.items() if k not in params}
         results = []
         for p, out in self.exec_block(path, tree.body, frame):
             if out is None:
                 out = ("return", None)
             results.append((p, out))
         return results
+
+    def call_function_new(self, path, nf, cls, args, kwargs, defining_cls):
+        """run a Python-level __new__(cls, ...) ; `super().__new__(cls, x, **kw)` creates the instance"""
+        tree = self.fn_ast(nf)
+        frame = Frame(nf.__globals__, defining_cls, None)
+        frame.new_cls = cls
+        params = [a.arg for a in tree.args.args]
+        vals = [cls] + list(args)
+        defaults = tree.args.defaults
+        for i, pname in enumerate(params):
+            if i < len(vals):
+                frame.locals[pname] = vals[i]
+            elif pname in kwargs:
+                frame.locals[pname] = kwargs[pname]
+            else:
+                di = i - (len(params) - len(defaults))
+                if di < 0:
+                    raise Unsupported("missing argument " + pname)
+                frame.locals[pname] = self.const_expr(defaults[di], frame)
+        if tree.args.kwarg is not None:
+            frame.locals[tree.args.kwarg.arg] = {k: v for k, v in kwargs.items() if k not in params}
+        out = []
+        for p, o in self.exec_block(path, tree.body, frame):
+            out.append((p, o if o is not None else ("return", None)))
+        return out
 
     def const_expr(self, node, frame):
         try:
@@ -432,10 +463,17 @@ class Engine:
         t.ctx = ast.Load()
         return t
 
-    def exec_while(self, path, st, frame, budget):
+    def exec_while(self, path, st, frame, budget, concrete_iters=0):
         out = []
         for p, fr, c in self.eval(path, st.test, frame):
-            for p2, b in self.fork_bool(p, self.truth(c)):
+            tc = self.truth(c)
+            if not is_sym(tc):
+                # a concrete loop condition costs no unwinding budget (bounded by a hard cap)
+                if concrete_iters > 5000:
+                    raise Unsupported("concrete loop does not terminate")
+                budget += 1 if tc else 0
+                concrete_iters += 1
+            for p2, b in self.fork_bool(p, tc):
                 fr2 = self._fork_frame(p2, p, fr)
                 if not b:
                     for p3, o3 in self.exec_block(p2, st.orelse, fr2):
@@ -452,7 +490,7 @@ class Engine:
                     elif o3 is not None and o3[0] != "continue":
                         out.append((p3, p3._frame, o3))
                     else:
-                        out.extend(self.exec_while(p3, st, p3._frame, budget - 1))
+                        out.extend(self.exec_while(p3, st, p3._frame, budget - 1, concrete_iters))
         return out
 
     def exec_for(self, path, st, frame):
@@ -538,6 +576,12 @@ class Engine:
                 raise Unsupported("tuple unpacking of symbolic/mismatched value")
             for t, v in zip(target.elts, value):
                 self.assign(path, frame, t, v)
+        elif isinstance(target, ast.Subscript):
+            cs = self.eval(path, target.value, frame)
+            ks = self.eval(path, target.slice, frame)
+            if len(cs) != 1 or len(ks) != 1 or is_sym(cs[0][2]) or is_sym(ks[0][2]):
+                raise Unsupported("symbolic subscript assignment")
+            cs[0][2][ks[0][2]] = value
         else:
             raise Unsupported("assignment target " + type(target).__name__)
 
@@ -628,6 +672,12 @@ class Engine:
                         if inspect.isfunction(a):
                             out.append((p, fr, ("__bound__", obj, name, None)))
                             break
+                        if isinstance(a, classmethod):
+                            out.append((p, fr, getattr(obj.cls, name)))      # bound to the real class
+                            break
+                        if isinstance(a, staticmethod):
+                            out.append((p, fr, a.__func__))
+                            break
                         out.append((p, fr, a))
                         break
                 else:
@@ -641,11 +691,19 @@ class Engine:
             out.append((p, fr, getattr(obj, node.attr)))
         return out
 
+    def e_Lambda(self, path, node, frame):
+        env = dict(frame.globals)
+        env.update({k: v for k, v in frame.locals.items() if not is_sym(v) and not isinstance(v, SObj)})
+        return [(path, frame, eval(compile(ast.Expression(node), "<lambda>", "eval"), env))]
+
     def e_UnaryOp(self, path, node, frame):
         out = []
         for p, fr, v in self.eval(path, node.operand, frame):
             if _is_raise(v):
                 out.append((p, fr, v))
+            elif isinstance(v, SObj) and isinstance(node.op, (ast.USub, ast.UAdd)):
+                for p2, o in self.call_method(p, v, "__neg__" if isinstance(node.op, ast.USub) else "__pos__", [], {}):
+                    out.append((p2, self._fork_frame(p2, p, fr), o[1] if o[0] == "return" else ("__raise__", o[1])))
             elif isinstance(node.op, ast.Not):
                 t = self.truth(v)
                 out.append((p, fr, z3.Not(t) if is_sym(t) else (not t)))
@@ -698,6 +756,10 @@ class Engine:
             if r:
                 out.append((p, fr, r))
                 continue
+            if len(node.ops) == 1 and (isinstance(vals[0], SObj) or isinstance(vals[1], SObj)) \
+                    and not isinstance(node.ops[0], (ast.Is, ast.IsNot, ast.In, ast.NotIn)):
+                out.extend(self.obj_compare(p, fr, node.ops[0], vals[0], vals[1]))
+                continue
             acc = True
             for op, a, b in zip(node.ops, vals, vals[1:]):
                 c = self.compare(op, a, b)
@@ -709,6 +771,15 @@ class Engine:
                 acc = c if acc is True else z3.And(acc, c)
             out.append((p, fr, acc))
         return out
+
+    def obj_compare(self, path, frame, op, a, b):
+        names = {ast.Eq: "__eq__", ast.NotEq: "__ne__", ast.Lt: "__lt__", ast.LtE: "__le__", ast.Gt: "__gt__", ast.GtE: "__ge__"}
+        swapped = {ast.Eq: "__eq__", ast.NotEq: "__ne__", ast.Lt: "__gt__", ast.LtE: "__ge__", ast.Gt: "__lt__", ast.GtE: "__le__"}
+        if isinstance(a, SObj):
+            res = self.call_method(path, a, names[type(op)], [b], {})
+        else:
+            res = self.call_method(path, b, swapped[type(op)], [a], {})
+        return [(p, self._fork_frame(p, path, frame), o[1] if o[0] == "return" else ("__raise__", o[1])) for p, o in res]
 
     def compare(self, op, a, b):
         if isinstance(op, (ast.Is, ast.IsNot)):
@@ -779,7 +850,9 @@ class Engine:
                 return [(path, f())]
             except ZeroDivisionError:
                 return [(path, ("__raise__", "ZeroDivisionError"))]
-            except TypeError:
+            except TypeError as e:
+                if DEBUG:
+                    print("astsym: concrete binop", type(op).__name__, repr(a), repr(b), "raised", repr(e))
                 return [(path, ("__raise__", "TypeError"))]
             except OverflowError:
                 return [(path, ("__raise__", "OverflowError"))]
@@ -943,6 +1016,18 @@ class Engine:
                 out.append((p, fr, ("__raise__", "IndexError")))
         return out
 
+    def e_Slice(self, path, node, frame):
+        parts = []
+        for n in (node.lower, node.upper, node.step):
+            if n is None:
+                parts.append(None)
+            else:
+                r = self.eval(path, n, frame)
+                if len(r) != 1 or is_sym(r[0][2]):
+                    raise Unsupported("symbolic slice bound")
+                parts.append(r[0][2])
+        return [(path, frame, slice(*parts))]
+
     def e_Dict(self, path, node, frame):
         out = []
         for p, fr, vals in self.seq_eval(path, list(node.keys) + list(node.values), frame):
@@ -952,8 +1037,33 @@ class Engine:
 
     # ----------------------------------------------------------------- calls
     def e_Call(self, path, node, frame):
-        if any(isinstance(a, ast.Starred) for a in node.args) or any(k.arg is None for k in node.keywords):
+        if any(isinstance(a, ast.Starred) for a in node.args):
             raise Unsupported("star args")
+        if any(k.arg is None for k in node.keywords):
+            # f(**kw) is accepted when kw is a concrete EMPTY dict (float-subclass constructors pass **kwargs on)
+            for k in node.keywords:
+                if k.arg is None:
+                    kv = self.eval(path, k.value, frame)
+                    if len(kv) != 1 or not isinstance(kv[0][2], dict) or kv[0][2]:
+                        raise Unsupported("non-empty ** arguments")
+            node = copy.copy(node)
+            node.keywords = [k for k in node.keywords if k.arg is not None]
+        # super().__new__(cls, value): the instance of a float subclass; its float value is field __si__
+        if (isinstance(node.func, ast.Attribute) and node.func.attr == "__new__" and isinstance(node.func.value, ast.Call)
+                and isinstance(node.func.value.func, ast.Name) and node.func.value.func.id == "super"):
+            out = []
+            for p, fr, vals in self.seq_eval(path, list(node.args), frame):
+                r = self.raised(vals)
+                if r:
+                    out.append((p, fr, r))
+                    continue
+                cls = vals[0]
+                val = vals[1] if len(vals) > 1 else 0.0
+                if isinstance(val, (str, type(None), list, dict, tuple)):
+                    out.append((p, fr, ("__raise__", "TypeError" if not isinstance(val, str) else "ValueError")))
+                    continue
+                out.append((p, fr, new_obj(p, cls, {"__si__": to_real(val) if is_sym(val) else float(val)})))
+            return out
         # super()
         if isinstance(node.func, ast.Name) and node.func.id == "super" and not node.args:
             return [(path, frame, ("__super__", frame.self_obj, frame.cls))]
@@ -991,6 +1101,10 @@ class Engine:
             return [(path, self.pytype(args[0]))]
         if fv is float:
             v = args[0]
+            if isinstance(v, SObj):
+                if "__si__" in path.heap[v.oid]:
+                    return [(path, path.heap[v.oid]["__si__"])]     # instance of a float subclass
+                raise Unsupported("float() of an object " + repr(v) + " " + repr(path.heap[v.oid]))
             if is_sym(v):
                 return [(path, to_real(v))]
             try:
@@ -1008,6 +1122,9 @@ class Engine:
             return [(path, self.truth(args[0]))]
         if fv is abs:
             v = args[0]
+            if isinstance(v, SObj):
+                res = self.call_method(path, v, "__abs__", [], {})
+                return [(p, o[1] if o[0] == "return" else ("__raise__", o[1])) for p, o in res]
             return [(path, z3.If(v >= 0, v, -v) if is_sym(v) else abs(v))]
         if fv is len:
             return [(path, len(args[0]))]
@@ -1121,6 +1238,38 @@ class Engine:
             if issubclass(fv, BaseException):
                 return [(path, ("__exc__", fv.__name__))]
             # instantiate a real class symbolically: run its __init__
+            if fv.__module__ in ("builtins", "collections", "typing") or not (
+                    inspect.isfunction(getattr(fv, "__init__", None)) or inspect.isfunction(getattr(fv, "__new__", None))):
+                if all(not is_sym(a) and not isinstance(a, SObj) for a in list(args) + list(kwargs.values())):
+                    try:
+                        return [(path, fv(*args, **kwargs))]
+                    except Exception as e:      # noqa
+                        return [(path, ("__raise__", type(e).__name__))]
+                raise Unsupported("instantiation of builtin class " + fv.__name__ + " with symbolic arguments")
+            newfn = None
+            for c0 in fv.__mro__:
+                cand = c0.__dict__.get("__new__")
+                cand = cand.__func__ if isinstance(cand, staticmethod) else cand
+                if inspect.isfunction(cand):
+                    newfn = (c0, c0.__dict__["__new__"])
+                    break
+            if newfn is not None:
+                c0, nf = newfn
+                nf = nf.__func__ if isinstance(nf, staticmethod) else nf
+                out = []
+                fr_new = self.call_function_new(path, nf, fv, args, kwargs, c0)
+                for p2, o in fr_new:
+                    if o[0] != "return":
+                        out.append((p2, ("__raise__", o[1])))
+                        continue
+                    obj = o[1]
+                    c, init = self.find_method(fv, "__init__")
+                    if init is object.__init__:
+                        out.append((p2, obj))
+                        continue
+                    for p3, o3 in self.call_function(p2, init, args, kwargs, self_obj=obj, defining_cls=c):
+                        out.append((p3, obj if o3[0] == "return" else ("__raise__", o3[1])))
+                return out
             obj = new_obj(path, fv)
             try:
                 c, init = self.find_method(fv, "__init__")
@@ -1132,6 +1281,12 @@ class Engine:
             for p2, o in self.call_function(path, init, args, kwargs, self_obj=obj, defining_cls=c):
                 out.append((p2, obj if o[0] == "return" else ("__raise__", o[1])))
             return out
+        if inspect.isfunction(fv) and not getattr(fv, "__module__", "").startswith(("pydsol", "harness", "checks", "vf")) \
+                and all(not is_sym(a) and not isinstance(a, SObj) for a in list(args) + list(kwargs.values())):
+            try:                                  # library function on concrete values: just run it
+                return [(path, fv(*args, **kwargs))]
+            except Exception as e:      # noqa
+                return [(path, ("__raise__", type(e).__name__))]
         if inspect.isfunction(fv):
             res = self.call_function(path, fv, args, kwargs)
             return [(p, o[1] if o[0] == "return" else ("__raise__", o[1])) for p, o in res]
@@ -1139,6 +1294,8 @@ class Engine:
             try:
                 return [(path, fv(*args, **kwargs))]
             except Exception as e:      # noqa
+                if DEBUG:
+                    print("astsym: concrete call", name, args, kwargs, "raised", repr(e))
                 return [(path, ("__raise__", type(e).__name__))]
         raise Unsupported("call of " + name)
 
